@@ -61,6 +61,8 @@ def run_scenario(scn: dict, *, maxbuf: int = 0, ns: int = 1, nr: int = 1, eager:
             return True
         if act["c"] in ("cancel", "native"):
             t = act["t"]
+            if t in b.tasks and b.tasks[t].done():
+                return True
             b.rec.emit(ev="creq", t=t, kind="scope" if act["c"] == "cancel" else "native")
             if act["c"] == "cancel":
                 b.scopes[t].cancel()
